@@ -8,7 +8,8 @@ LEVEL_TEXT = ('Framing: the bytes handed to the transport are the 4-byte big-end
               'Chunk independence: ScalesSocket.readAll is proved, with the loop invariant "buffer = stream[p0 : p0+have]", to return the next sz bytes of the stream for every sequence of chunk sizes recv may return (EOFError on a zero-length chunk). '
               'Reply mapping (DeserializeThriftCall, from the statement): an EXCEPTION message yields the application exception as the error; a set success field yields it as the return value; a set declared exception yields it as the error; '
               'a void result (result class without a success field, nothing set) yields None without error; a result with a success field and nothing set is reported as an error, never as a return value.'
-              ' The reply mapping is stated as five postconditions of DeserializeThriftCall rather than as assertions at individual return statements: an EXCEPTION message yields the application exception as error with a recorded stack (which is what makes the dispatcher wrap it); a set success value is the return value; otherwise a set declared exception is the error, for void and non-void methods alike; nothing set yields None without error for a void method and a missing-result error otherwise; no result class yields an empty reply.')
+              ' The reply mapping is stated as five postconditions of DeserializeThriftCall rather than as assertions at individual return statements: an EXCEPTION message yields the application exception as error with a recorded stack (which is what makes the dispatcher wrap it); a set success value is the return value; otherwise a set declared exception is the error, for void and non-void methods alike; nothing set yields None without error for a void method and a missing-result error otherwise; no result class yields an empty reply.'
+              ' The dispatcher side of it, _AsyncResponseSink._WrapException, is verified too: a timeout is handed over as it is, any other error is wrapped in ScalesError carrying it as inner exception exactly when a stack was recorded.')
 LEVEL_NOTE = ('Trusted: pyvc encoding and byte algebra, z3; the generated result classes and the Thrift protocol objects are abstract externs (read/readMessageBegin may raise; a result instance has a success attribute unless the method is void); '
               'the loop over thrift_spec[1:] is an opaque iteration with reflective getattr. Byte-level agreement with the Thrift library\'s server-side processor (C-accelerated codec) is assumed, not proved. '
               'Not under contract in this version: VarzSocketWrapper.readAll (bytearray/memoryview variant of the same loop), SerializeThriftCall\'s call sequence, _WrapException.')
